@@ -24,7 +24,7 @@ HARNESS = os.path.join(HERE, "harness")
 REPO = os.environ.get("VERIF_REPO", "/repo")
 # evidence and replay files belong to runs against /repo itself; a sensitivity run on a scratch
 # copy (VERIF_REPO) writes them to a scratch directory instead
-OUT = HERE if REPO == "/repo" else os.path.join("/dev/shm" if os.path.isdir("/dev/shm") else "/tmp", "verif-sensitivity")
+OUT = HERE if REPO == "/repo" else os.path.join("/dev/shm" if os.path.isdir("/dev/shm") else "/tmp", "verif-sensitivity-" + os.path.basename(REPO.rstrip("/")))
 sys.path.insert(0, HERE)
 from checks import CHECKS  # noqa: E402
 
